@@ -64,7 +64,7 @@ void adapter_exec(Ev *ev)
         uint64_t n = get_w64(ev->a + 1);
         unsigned char one = 0;
         LengthPrefixBuffer lpb;
-        memset(&lpb, 0, sizeof lpb);
+        memset(&lpb, 0xA5, sizeof lpb);       /* the encoders must set every field they hand back */
         int rc = flenp_memory_encode(k, &lpb, &one, (size_t)n);
         obs(ev, rcc(rc));
         if (rc >= 0) {
@@ -77,7 +77,7 @@ void adapter_exec(Ev *ev)
     if (ev_is(ev, "benc") || ev_is(ev, "bencn")) {
         ByteBuffer b; unsigned char *blk = mkbuf(&b, ev->a + 1);
         LengthPrefixBuffer lpb;
-        memset(&lpb, 0, sizeof lpb);
+        memset(&lpb, 0xA5, sizeof lpb);       /* the encoders must set every field they hand back */
         int rc = ev_is(ev, "benc") ? flenp_buffer_encode(k, &lpb, &b) : flenp_buffer_encode_n(k, &lpb, &b, (size_t)ev->a[4]);
         obs(ev, rcc(rc));
         if (rc >= 0) {
@@ -100,7 +100,7 @@ void adapter_exec(Ev *ev)
         }
         if (ev_is(ev, "cuse")) {
             LengthPrefixChunks lpc;
-            memset(&lpc, 0, sizeof lpc);
+            memset(&lpc, 0xA5, sizeof lpc);
             lpc.payload.chunks = nc; lpc.payload.active = act; lpc.payload.chunk = cs;
             int rc = flenp_chunks_use(k, &lpc);
             obs(ev, rcc(rc));
